@@ -360,7 +360,10 @@ func init() {
 				c.Fail("mismatch", e.Name, gen.ContainerNames[kind]+":error", fmt.Sprintf("error in %s: %s, in bare TIFF: %s", gen.ContainerNames[kind], rc.Err, rr.Err))
 				return
 			}
-			if got, exp := rc.Fields.Get("Exif.ImageType"), wantType(rec, containerType[kind]); got != exp && rc.ErrNil {
+			// (a Nikon maker note makes the file a NEF whatever contains it: the type then follows
+			// the payload, not the container, and only the relation above is judged)
+			nikon := len(rec.MakerNote) > 5 && string(rec.MakerNote[:5]) == "Nikon"
+			if got, exp := rc.Fields.Get("Exif.ImageType"), wantType(rec, containerType[kind]); got != exp && rc.ErrNil && !nikon {
 				c.Fail("mismatch", e.Name, gen.ContainerNames[kind]+":Exif.ImageType", fmt.Sprintf("image type %s, want %s", got, exp))
 				return
 			}
